@@ -369,4 +369,63 @@ theorem C19_handle_reads_back (v : UpdVariant) (e : Env) (s : State) (x : CProxy
         exact find_replace_same s x.name p p' hp this.2
       · simp [hu, Api.ok]
 
+/-! ### `Client.Populate` -/
+
+/-- What the server makes of one element of the body `Client.Populate` sends. -/
+def asEntry (p : CProxy) : PopEntry := ⟨p.name, p.listen, p.upstream, some p.enabled⟩
+
+theorem lookupAll_entry (p : CProxy) :
+    lookupAll [("name", jstr p.name), ("listen", jstr p.listen), ("upstream", jstr p.upstream),
+               ("enabled", J.bool p.enabled), ("toxics", J.null)] "name" = [jstr p.name] ∧
+    lookupAll [("name", jstr p.name), ("listen", jstr p.listen), ("upstream", jstr p.upstream),
+               ("enabled", J.bool p.enabled), ("toxics", J.null)] "listen" = [jstr p.listen] ∧
+    lookupAll [("name", jstr p.name), ("listen", jstr p.listen), ("upstream", jstr p.upstream),
+               ("enabled", J.bool p.enabled), ("toxics", J.null)] "upstream" = [jstr p.upstream] ∧
+    lookupAll [("name", jstr p.name), ("listen", jstr p.listen), ("upstream", jstr p.upstream),
+               ("enabled", J.bool p.enabled), ("toxics", J.null)] "enabled" = [J.bool p.enabled] := by
+  have k : keyMatches "name" "name" = true ∧ keyMatches "name" "listen" = false ∧ keyMatches "name" "upstream" = false ∧
+      keyMatches "name" "enabled" = false ∧ keyMatches "name" "toxics" = false ∧
+      keyMatches "listen" "name" = false ∧ keyMatches "listen" "listen" = true ∧ keyMatches "listen" "upstream" = false ∧
+      keyMatches "listen" "enabled" = false ∧ keyMatches "listen" "toxics" = false ∧
+      keyMatches "upstream" "name" = false ∧ keyMatches "upstream" "listen" = false ∧ keyMatches "upstream" "upstream" = true ∧
+      keyMatches "upstream" "enabled" = false ∧ keyMatches "upstream" "toxics" = false ∧
+      keyMatches "enabled" "name" = false ∧ keyMatches "enabled" "listen" = false ∧ keyMatches "enabled" "upstream" = false ∧
+      keyMatches "enabled" "enabled" = true ∧ keyMatches "enabled" "toxics" = false := by decide
+  obtain ⟨a1, a2, a3, a4, a5, b1, b2, b3, b4, b5, c1, c2, c3, c4, c5, d1, d2, d3, d4, d5⟩ := k
+  refine ⟨?_, ?_, ?_, ?_⟩ <;>
+    simp [lookupAll, List.filter, a1, a2, a3, a4, a5, b1, b2, b3, b4, b5, c1, c2, c3, c4, c5, d1, d2, d3, d4, d5]
+
+/-- **C19 (`Populate` sends what the caller holds, and the server reads it as that).** For every
+list of client proxies: the body `Client.Populate` marshals is decoded by the server into exactly
+those entries — name, listen address, upstream and the `enabled` flag as given (always present:
+the client's field has no `omitempty`), the client-side `toxics` key ignored. -/
+theorem C19_populate_decodes (ps : List CProxy) :
+    decodePopulate (.val (.arr (ps.map populateEntry))) = some (ps.map asEntry) := by
+  have hmap : ∀ (f : J → Option PopEntry), (∀ p, f (populateEntry p) = some (asEntry p)) →
+      ps.map (f ∘ populateEntry) = ps.map (fun p => some (asEntry p)) :=
+    fun f hf => List.map_congr_left (fun p _ => hf p)
+  unfold decodePopulate
+  simp only [List.map_map]
+  rw [hmap]
+  · have hall : (ps.map (fun p => some (asEntry p))).all (·.isSome) = true := by
+      simp [List.all_eq_true]
+    rw [if_pos hall]
+    congr 1
+    induction ps with
+    | nil => rfl
+    | cons p ps ih => simp
+  · intro p
+    obtain ⟨h1, h2, h3, h4⟩ := lookupAll_entry p
+    simp only [populateEntry, h1, h2, h3, h4]
+    simp [applyStores, storeString, jstr, asEntry]
+
+/-- `Client.Populate` is one request, `POST /populate`, whose effect and answer are the
+handler's; it reports an error exactly when the answer is not 2xx. -/
+theorem C19_populate_is_api (v : UpdVariant) (e : Env) (s : State) (ps : List CProxy) :
+    let r := req .post ["populate"] (.val (.arr (ps.map populateEntry)))
+    (run v e s (.populate ps)).requests = [r] ∧
+    (run v e s (.populate ps)).state = (step v e s r).1 ∧
+    (run v e s (.populate ps)).failed = isError (step v e s r).2 := by
+  simp [run, send]
+
 end Toxi.Client
